@@ -476,7 +476,17 @@ func RunC02(r *core.Rng, run, seed uint64, tier string, cov *Cov) []*Violation {
 	if r.Chance(0.15) {
 		cfg.MaxDumps = 0
 	}
+	hugeLineProbe(&cfg, run, cov)
 	return runLoopProp("C02", r, run, seed, tier, cov, cfg, 10)
+}
+
+// hugeLineProbe: every 1500th run starts with a line of a whole power-of-two
+// number of buffer-fulls (64 KiB ... 2 MiB) that ends in dump-opening text.
+func hugeLineProbe(cfg *gen.Cfg, run uint64, cov *Cov) {
+	if run%1500 == 11 {
+		cfg.HugeLine = 16384 * []int{4, 8, 16, 64, 128}[int(run/1500)%5]
+		cov.Probe("huge-line-probe")
+	}
 }
 
 // RunC07: k >= 1 dumps with every terminator kind.
@@ -489,6 +499,7 @@ func RunC07(r *core.Rng, run, seed uint64, tier string, cov *Cov) []*Violation {
 	if r.Chance(0.15) {
 		return runC07Invalid(r, run, seed, cov, cfg)
 	}
+	hugeLineProbe(&cfg, run, cov)
 	return runLoopProp("C07", r, run, seed, tier, cov, cfg, 8)
 }
 
